@@ -927,7 +927,12 @@ def opRadiusPattern : Op K := fun n _ =>
   let o := outVec #[] m (fun k => ((Glue.radRow ny k : Nat) : K))
   outVec o m (fun k => ((Glue.radCol nx ny k : Nat) : K))
 
-
+/-- ints: nx ny ; floats: w → rows[6 ny] cols[6 ny] val[6 ny] of the declared constant partials d nodes / d mesh (ComputeNodes) -/
+def opComputeNodesPattern : Op K := fun n a =>
+  let nx := n[0]!; let ny := n[1]!; let m := 6 * ny
+  let o := outVec #[] m (fun k => ((Glue.nodesRow ny k : Nat) : K))
+  let o := outVec o m (fun k => ((Glue.nodesCol nx ny k : Nat) : K))
+  outVec o m (fun k => Glue.nodesVal ny (at_ a 0) k)
 
 def ops : List (String × Op K) := [
   ("ComputeNodes", opComputeNodes),
@@ -1020,7 +1025,8 @@ def ops : List (String × Op K) := [
   ("MonotonicPattern", opMonotonicPattern),
   ("FEMPattern", opFEMPattern),
   ("SectionGeometry", opSectionGeometry),
-  ("RadiusPattern", opRadiusPattern)
+  ("RadiusPattern", opRadiusPattern),
+  ("ComputeNodesPattern", opComputeNodesPattern)
 ]
 
 end OAS.Driver
